@@ -328,6 +328,13 @@ template <typename T, typename U, int NN> void mixed()
   U s = gen<U>(5);
   { auto r = a * s; CHECK_COMP("mixed_mul_vs", r, (R)((R)get(a, i) * (R)s), ab + " " + show(s)) }
   { auto r = s + a; CHECK_COMP("mixed_add_sv", r, (R)((R)s + (R)get(a, i)), ab + " " + show(s)) }
+  // every operator in both positions (the non-commutative ones tell `s op v` from `v op s`)
+  { auto r = a + s; CHECK_COMP("mixed_add_vs", r, (R)((R)get(a, i) + (R)s), ab + " " + show(s)) }
+  { auto r = a - s; CHECK_COMP("mixed_sub_vs", r, (R)((R)get(a, i) - (R)s), ab + " " + show(s)) }
+  { auto r = a / s; CHECK_COMP("mixed_div_vs", r, (R)((R)get(a, i) / (R)s), ab + " " + show(s)) }
+  { auto r = s - a; CHECK_COMP("mixed_sub_sv", r, (R)((R)s - (R)get(a, i)), ab + " " + show(s)) }
+  { auto r = s * a; CHECK_COMP("mixed_mul_sv", r, (R)((R)s * (R)get(a, i)), ab + " " + show(s)) }
+  { auto r = s / a; CHECK_COMP("mixed_div_sv", r, (R)((R)s / (R)get(a, i)), ab + " " + show(s)) }
   // compound assignment with a different element / scalar type: the scalar compound assignment per component
   { V r = a; r *= s; CHECK_COMP("mixed_mul_assign_s", r, ([&] { T t = get(a, i); t *= s; return t; }()), ab + " " + show(s)) }
   { V r = a; r += s; CHECK_COMP("mixed_add_assign_s", r, ([&] { T t = get(a, i); t += s; return t; }()), ab + " " + show(s)) }
